@@ -135,15 +135,27 @@ func baseNextToken(l *Lexer) token.Token {
 	case '"':
 		// Capture position BEFORE reading the string
 		startLine, startColumn := l.Line, l.Column
-		tok = l.NewTokenAt(token.STRING, l.readString('"'), startLine, startColumn)
+		literal, terminated := l.readString('"')
+		if !terminated {
+			return l.NewTokenAt(token.ILLEGAL, literal, startLine, startColumn)
+		}
+		tok = l.NewTokenAt(token.STRING, literal, startLine, startColumn)
 	case '\'':
 		// Capture position BEFORE reading the string
 		startLine, startColumn := l.Line, l.Column
-		tok = l.NewTokenAt(token.STRING, l.readString('\''), startLine, startColumn)
+		literal, terminated := l.readString('\'')
+		if !terminated {
+			return l.NewTokenAt(token.ILLEGAL, literal, startLine, startColumn)
+		}
+		tok = l.NewTokenAt(token.STRING, literal, startLine, startColumn)
 	case '`':
 		// Capture position BEFORE reading the raw string
 		startLine, startColumn := l.Line, l.Column
-		tok = l.NewTokenAt(token.RAW_STRING, l.readRawString(), startLine, startColumn)
+		literal, terminated := l.readRawString()
+		if !terminated {
+			return l.NewTokenAt(token.ILLEGAL, literal, startLine, startColumn)
+		}
+		tok = l.NewTokenAt(token.RAW_STRING, literal, startLine, startColumn)
 	case 0:
 		tok = l.NewToken(token.EOF, "")
 		if l.position >= len(l.input) {
